@@ -73,11 +73,20 @@ fn run_seed(seed: u64, prop: &str, eng: &str, family: &str, idx: u64) -> u64 {
 
 /// Everything about run `idx` is a pure function of (seed, prop, engine, family, idx, code).
 pub fn one_run(e: &Engine, seed: u64, prop: &str, family: &str, idx: u64, max_ops: usize) -> RunResult {
+    one_run_from(e, seed, prop, family, idx, max_ops, u64::MAX)
+}
+
+/// `long_from`: run indexes at or above it exist only in the thorough tier; every 16th of those is a long run (up to six
+/// times the usual length) so that the deep tier also reaches states many operations away from the start.
+pub fn one_run_from(e: &Engine, seed: u64, prop: &str, family: &str, idx: u64, max_ops: usize, long_from: u64) -> RunResult {
     let rs = run_seed(seed, prop, e.name, family, idx);
     let mut crng = Rng::new(rs ^ 0xC0F1_6000);
     let mut cfg = (e.gen_cfg)(family, &mut crng);
     checks::bias_cfg(prop, &mut cfg, &mut crng);
-    let n_ops = crng.range(30.min(max_ops as u64), max_ops as u64) as usize;
+    let mut n_ops = crng.range(30.min(max_ops as u64), max_ops as u64) as usize;
+    if idx >= long_from && idx % 16 == 0 {
+        n_ops *= 6;
+    }
     run_generated(e.make, &cfg, rs, n_ops)
 }
 
@@ -109,6 +118,7 @@ struct Agg {
     samples: Vec<J>,
     truncated: bool,
     panicked_runs: u64,
+    long_runs: u64,
 }
 
 fn is_nontrivial(prop: &str, c: &Counters) -> bool {
@@ -270,7 +280,10 @@ pub fn cmd_check(args: &[String]) -> i32 {
                             local.truncated = true;
                             break;
                         }
-                        let r = one_run(&e, seed, &prop, plan.family, idx, plan.max_ops);
+                        let r = one_run_from(&e, seed, &prop, plan.family, idx, plan.max_ops, plan.quick);
+                        if r.ops.len() > plan.max_ops {
+                            local.long_runs += 1;
+                        }
                         local.runs += 1;
                         local.ops += r.ops.len() as u64;
                         local.sim_ms += r.sim_ms;
@@ -312,6 +325,7 @@ pub fn cmd_check(args: &[String]) -> i32 {
                     }
                     let mut a = agg.lock().unwrap();
                     a.runs += local.runs;
+                    a.long_runs += local.long_runs;
                     a.ops += local.ops;
                     a.sim_ms += local.sim_ms;
                     a.panicked_runs += local.panicked_runs;
@@ -358,6 +372,7 @@ pub fn cmd_check(args: &[String]) -> i32 {
         per_family.push(fj);
         // merge into total
         total.runs += a.runs;
+        total.long_runs += a.long_runs;
         total.ops += a.ops;
         total.sim_ms += a.sim_ms;
         total.panicked_runs += a.panicked_runs;
@@ -463,6 +478,7 @@ pub fn cmd_check(args: &[String]) -> i32 {
     total.samples.truncate(4);
     cov.set("samples", J::Arr(total.samples.clone()));
     cov.set("runs", J::u(total.runs));
+    cov.set("long_runs", J::u(total.long_runs));
     cov.set("nontrivial_runs", J::u(total.nontrivial_runs));
     cov.set("corpus_traces_replayed", J::u(corpus_replayed));
     cov.set("operations_executed", J::u(total.ops));
@@ -638,7 +654,13 @@ pub fn cmd_hashes(args: &[String]) -> i32 {
                 if idx >= from + count {
                     break;
                 }
-                let r = one_run(&e, seed, prop, family, idx, 300);
+                let long_from = if std::env::var("VERIF_HASHES_LONG").is_ok() { 0 } else { u64::MAX };
+                let max_ops: usize = std::env::var("VERIF_HASHES_MAXOPS").ok().and_then(|s| s.parse().ok()).unwrap_or(300);
+                let t = Instant::now();
+                let r = one_run_from(&e, seed, prop, family, idx, max_ops, long_from);
+                if std::env::var("VERIF_HASHES_TIME").is_ok() {
+                    eprintln!("time {} {} ops {:.3} s", idx, r.ops.len(), t.elapsed().as_secs_f64());
+                }
                 let r = if via_trace { run_trace(e.make, &r.cfg, &r.ops) } else { r };
                 let sigs: Vec<String> = r.violations.iter().map(|v| v.signature()).collect();
                 out.lock().unwrap().insert(idx, format!("{} {:016x} {:016x} {} {}", idx, r.log_hash, r.abs_hash, r.ops.len(), sigs.join(",")));
